@@ -40,3 +40,34 @@ package eval
 //@   ensures [C02,C19] sorted: res == nil ==> sortedANPs(pe)
 //@   ensures [C02] perm: forall k int :: {pe.sortedAdminNetpols[k]} (0 <= k && k < len(pe.sortedAdminNetpols)) ==>
 //@         (exists m int :: 0 <= m && m < old(len(pe.sortedAdminNetpols)) && pe.sortedAdminNetpols[k] == old(pe.sortedAdminNetpols[m]))
+
+// names of the stored ANPs are exactly the keys of adminNetpolsMap (uniqueness by name)
+//@ pred anpNames(pe *PolicyEngine) = pe.adminNetpolsMap != nil
+//@   && (forall k int :: {pe.sortedAdminNetpols[k]} (0 <= k && k < len(pe.sortedAdminNetpols)) ==>
+//@         (pe.sortedAdminNetpols[k].Name in pe.adminNetpolsMap && pe.adminNetpolsMap[pe.sortedAdminNetpols[k].Name]))
+
+//@ func (*PolicyEngine).insertAdminNetworkPolicy
+//@   requires pe != nil && allocated(pe) && anp != nil && allocated(anp) && anpsNonNil(pe) && anpNames(pe)
+//@   modifies pe.sortedAdminNetpols, pe.adminNetpolsMap[*]
+//@   ensures [C19] dup: (!pe.exposureAnalysisFlag && old(anp.Name in pe.adminNetpolsMap && pe.adminNetpolsMap[anp.Name])) ==> res != nil
+//@   ensures [C19,C15] rejected: res != nil ==> (pe.sortedAdminNetpols == old(pe.sortedAdminNetpols) && dom(pe.adminNetpolsMap) == old(dom(pe.adminNetpolsMap)))
+//@   ensures [C02,C15] appended: res == nil ==> (len(pe.sortedAdminNetpols) == old(len(pe.sortedAdminNetpols)) + 1
+//@         && pe.sortedAdminNetpols[old(len(pe.sortedAdminNetpols))] == anp
+//@         && (forall k int :: {pe.sortedAdminNetpols[k]} (0 <= k && k < old(len(pe.sortedAdminNetpols))) ==> pe.sortedAdminNetpols[k] == old(pe.sortedAdminNetpols[k])))
+//@   ensures [C19,C15] inv: anpsNonNil(pe) && anpNames(pe)
+
+//@ func (*PolicyEngine).deleteAdminNetworkPolicy
+//@   requires pe != nil && allocated(pe) && anp != nil && anpsNonNil(pe) && pe.adminNetpolsMap != nil
+//@   modifies pe.sortedAdminNetpols, pe.adminNetpolsMap[*]
+//@   ensures [C15] total: res == nil && anpsNonNil(pe)
+//@   ensures [C02,C15] absent: (forall k int :: {old(pe.sortedAdminNetpols[k])} (0 <= k && k < old(len(pe.sortedAdminNetpols))) ==> old(pe.sortedAdminNetpols[k]) != anp)
+//@         ==> pe.sortedAdminNetpols == old(pe.sortedAdminNetpols)
+//@   ensures [C02,C15] order: old(sortedANPs(pe)) ==> sortedANPs(pe)
+//@   ensures [C02,C15] removed: (exists i int :: 0 <= i && i < old(len(pe.sortedAdminNetpols)) && old(pe.sortedAdminNetpols[i]) == anp) ==>
+//@         (exists i int :: 0 <= i && i < old(len(pe.sortedAdminNetpols)) && old(pe.sortedAdminNetpols[i]) == anp
+//@            && len(pe.sortedAdminNetpols) == old(len(pe.sortedAdminNetpols)) - 1
+//@            && (forall m int :: {pe.sortedAdminNetpols[m]} (0 <= m && m < i) ==> pe.sortedAdminNetpols[m] == old(pe.sortedAdminNetpols[m]))
+//@            && (forall m int :: {pe.sortedAdminNetpols[m]} (i <= m && m < len(pe.sortedAdminNetpols)) ==> pe.sortedAdminNetpols[m] == old(pe.sortedAdminNetpols[m + 1])))
+//@   loop 1:
+//@     invariant idx: 0 - 1 <= rangeindex && rangeindex < len(pe.sortedAdminNetpols) + 1 && pe.sortedAdminNetpols == old(pe.sortedAdminNetpols)
+//@     invariant before: forall k int :: {pe.sortedAdminNetpols[k]} (0 <= k && k <= rangeindex) ==> pe.sortedAdminNetpols[k] != anp
